@@ -8,7 +8,13 @@
 // -DPIKA_DETAIL_ENABLE_ANY_SENDER_SBO (then any_sender.cpp is compiled into the harness too,
 // because the layout of the exported any_operation_state_holder depends on the macro).
 //
-// usage: c18_erased <seed> <ncases> [first-case] [kinds: s|f|sf]
+// Throwing constructors: ops sx/cx/nx/mx/ax/rx (senders) and sx/kx/cx (functions) run the operation while the
+// wrapped type's copy / move constructor throws (g_throw_armed); nested wrappers: ns (unique_any_sender <- l-value
+// any_sender), nf (unique_function <- function); tg = target<T>(); over-aligned test types (aln).  A TYPES case
+// prints sizeof / alignof of every test type's Impl and the decision of the compiled can_use_embedded_storage /
+// vtable::allocate.  All wrapper slots live at addresses = 8 (mod 16) so that an over-aligned object constructed
+// in an inline buffer is observably misaligned.
+// usage: c18_erased <seed> <ncases> [first-case] [kinds: s|f|sf|x|t]
 //        c18_erased replay "<IN line>"
 #include <pika/execution_base/any_sender.hpp>
 #include <pika/execution_base/operation_state.hpp>
@@ -55,9 +61,17 @@ static void* v_alloc(std::size_t n)
     if (g_track && g_nlive < kMaxBlk) g_live[g_nlive++] = p;
     return p;
 }
+static int g_badfree = 0;
+static char* g_slots_lo = nullptr;
+static char* g_slots_hi = nullptr;
 static void v_free(void* p) noexcept
 {
     if (!p) return;
+    if ((char*) p >= g_slots_lo && (char*) p < g_slots_hi)
+    {
+        ++g_badfree;    // delete of an inline buffer (wrong vtable after a throwing constructor)
+        return;
+    }
     if (g_track)
     {
         for (int i = g_nlive - 1; i >= 0; --i)
@@ -93,6 +107,20 @@ void operator delete(void* p, std::size_t) noexcept { v_free(p); }
 void operator delete[](void* p, std::size_t) noexcept { v_free(p); }
 void operator delete(void* p, std::nothrow_t const&) noexcept { v_free(p); }
 void operator delete[](void* p, std::nothrow_t const&) noexcept { v_free(p); }
+// over-aligned types (aligned_storage_helper<T> of an alignas(16) callable, impls of over-aligned senders)
+static void* v_alloc_al(std::size_t n, std::size_t al)
+{
+    void* p = nullptr;
+    if (posix_memalign(&p, al < sizeof(void*) ? sizeof(void*) : al, n ? n : 1) != 0) throw std::bad_alloc();
+    if (g_track && g_nlive < kMaxBlk) g_live[g_nlive++] = p;
+    return p;
+}
+void* operator new(std::size_t n, std::align_val_t a) { return v_alloc_al(n, (std::size_t) a); }
+void* operator new[](std::size_t n, std::align_val_t a) { return v_alloc_al(n, (std::size_t) a); }
+void operator delete(void* p, std::align_val_t) noexcept { v_free(p); }
+void operator delete[](void* p, std::align_val_t) noexcept { v_free(p); }
+void operator delete(void* p, std::size_t, std::align_val_t) noexcept { v_free(p); }
+void operator delete[](void* p, std::size_t, std::align_val_t) noexcept { v_free(p); }
 
 // ---------------------------------------------------------------- ledger
 enum : std::uint32_t { MAGIC_LIVE = 0xA11CE5EDu, MAGIC_DEAD = 0xDEADBEEFu };
@@ -116,13 +144,14 @@ struct Ledger
     int dbl = 0;                 // destructor ran on an already destroyed object
     int garbage = 0;             // destructor / use on something that is not an object
     int dead_use = 0;            // invoke / connect on a destroyed or moved-from object
+    int misaligned = 0;          // an object was constructed at an address that is not a multiple of its alignment
     void reset()
     {
         next = 0;
         evn = 0;
         ev[0] = 0;
         std::memset(st, 0, sizeof st);
-        dbl = garbage = dead_use = 0;
+        dbl = garbage = dead_use = misaligned = 0;
     }
     void add(char const* s)
     {
@@ -141,8 +170,9 @@ struct Ledger
 };
 static Ledger LG;
 
-static void on_ctor(Core& c, char kind, Core const* src)
+static void on_ctor(Core& c, char kind, Core const* src, std::size_t align = alignof(Core))
 {
+    if (reinterpret_cast<std::uintptr_t>(&c) % align != 0) ++LG.misaligned;
     c.magic = MAGIC_LIVE;
     c.id = LG.next++;
     if (c.id < sizeof LG.st) LG.st[c.id] = 1;
@@ -183,14 +213,35 @@ struct test_error
 {
     int code;
 };
-static bool g_copy_throws = false;    // armed only by the 'cx' step of FUNX witness cases
+static bool g_copy_throws = false;    // armed by the throwing steps: the next copy / move construction of a
+static bool g_move_throws = false;    // ledgered sender / callable throws test_error{0} (and disarms)
+static void maybe_throw(bool& flag)
+{
+    if (flag)
+    {
+        g_copy_throws = g_move_throws = false;
+        throw test_error{0};
+    }
+}
+struct Arm
+{
+    Arm() { g_copy_throws = g_move_throws = true; }
+    ~Arm() { g_copy_throws = g_move_throws = false; }
+};
 
-template <bool Big>
+template <bool Big, bool Aln = false>
 struct Body
 {
     Core c;
     unsigned char pad[Big ? 40 : 8];    // small = exactly the size of the inline buffers
 };
+// over-aligned and small: fits every inline buffer by size, but needs 16-byte alignment
+template <bool Big>
+struct Body<Big, true>
+{
+    alignas(16) Core c;
+};
+static_assert(sizeof(Body<false, true>) == 16 && alignof(Body<false, true>) == 16);
 static_assert(sizeof(Body<false>) == 3 * sizeof(void*));
 static_assert(sizeof(Body<true>) > 4 * sizeof(void*));
 
@@ -215,26 +266,28 @@ static void core_moved(Core& o)
 }
 
 // ---------------------------------------------------------------- ledgered callable
-template <bool Big, bool Copy>
+template <bool Big, bool Copy, bool Aln = false>
 struct Callable
 {
-    Body<Big> b;
+    Body<Big, Aln> b;
+    static constexpr std::size_t kAlign = alignof(Body<Big, Aln>);
     Callable(int k, int beh)
     {
         core_init(b.c, k, beh);
-        on_ctor(b.c, 'C', nullptr);
+        on_ctor(b.c, 'C', nullptr, kAlign);
     }
-    Callable(Callable&& o) noexcept
+    Callable(Callable&& o)
     {
+        maybe_throw(g_move_throws);
         core_from(b.c, o.b.c);
-        on_ctor(b.c, 'M', &o.b.c);
+        on_ctor(b.c, 'M', &o.b.c, kAlign);
         core_moved(o.b.c);
     }
     Callable(Callable const& o) requires Copy
     {
-        if (g_copy_throws) throw test_error{0};
+        maybe_throw(g_copy_throws);
         core_from(b.c, o.b.c);
-        on_ctor(b.c, 'K', &o.b.c);
+        on_ctor(b.c, 'K', &o.b.c, kAlign);
     }
     Callable& operator=(Callable const&) = delete;
     Callable& operator=(Callable&&) = delete;
@@ -277,25 +330,28 @@ struct Op
     }
 };
 
-template <bool Big, bool Copy>
+template <bool Big, bool Copy, bool Aln = false>
 struct Sender
 {
-    Body<Big> b;
+    Body<Big, Aln> b;
+    static constexpr std::size_t kAlign = alignof(Body<Big, Aln>);
     Sender(int k, int beh)
     {
         core_init(b.c, k, beh);
-        on_ctor(b.c, 'C', nullptr);
+        on_ctor(b.c, 'C', nullptr, kAlign);
     }
-    Sender(Sender&& o) noexcept
+    Sender(Sender&& o)
     {
+        maybe_throw(g_move_throws);
         core_from(b.c, o.b.c);
-        on_ctor(b.c, 'M', &o.b.c);
+        on_ctor(b.c, 'M', &o.b.c, kAlign);
         core_moved(o.b.c);
     }
     Sender(Sender const& o) requires Copy
     {
+        maybe_throw(g_copy_throws);
         core_from(b.c, o.b.c);
-        on_ctor(b.c, 'K', &o.b.c);
+        on_ctor(b.c, 'K', &o.b.c, kAlign);
     }
     Sender& operator=(Sender const&) = delete;
     Sender& operator=(Sender&&) = delete;
@@ -393,7 +449,7 @@ struct Rng
 struct OpRec
 {
     std::string name;
-    int a[7] = {0, 0, 0, 0, 0, 0, 0};
+    int a[10] = {0, 0, 0, 0, 0, 0, 0, 0, 0, 0};
     int n = 0;
     std::string str() const
     {
@@ -417,7 +473,7 @@ static std::vector<OpRec> parse_ops(std::string const& s)
         OpRec o;
         std::size_t q = t.find(',');
         o.name = t.substr(0, q);
-        while (q != std::string::npos && o.n < 7)
+        while (q != std::string::npos && o.n < 10)
         {
             std::size_t r = t.find(',', q + 1);
             o.a[o.n++] = std::atoi(t.substr(q + 1, r == std::string::npos ? r : r - q - 1).c_str());
@@ -464,8 +520,24 @@ static std::string exc_token()
 using US = ex::unique_any_sender<int>;
 using AS = ex::any_sender<int>;
 static constexpr int kMaxSlots = 4;
-static std::optional<US> U[kMaxSlots];
-static std::optional<AS> A[kMaxSlots];
+using FN = pika::util::detail::function<int(int)>;
+using UF = pika::util::detail::unique_function<int(int)>;
+// every wrapper object lives at an address = 8 (mod 16): legal for the wrappers (alignment 8), and the inline
+// buffers (offset 0 of the SBO storages, offset 16 of function_base) are then NOT 16-byte aligned
+struct alignas(16) AllSlots
+{
+    char pad[8];
+    std::optional<FN> f[kMaxSlots];
+    std::optional<UF> q[kMaxSlots];
+    std::optional<US> u[kMaxSlots];
+    std::optional<AS> a[kMaxSlots];
+};
+static_assert(sizeof(std::optional<FN>) % 16 == 0 && sizeof(std::optional<UF>) % 16 == 0);
+static AllSlots SL;
+static std::optional<US> (&U)[kMaxSlots] = SL.u;
+static std::optional<AS> (&A)[kMaxSlots] = SL.a;
+static std::optional<FN> (&F)[kMaxSlots] = SL.f;
+static std::optional<UF> (&Q)[kMaxSlots] = SL.q;
 
 template <typename W>
 static std::string connect_rv(W& w)
@@ -526,9 +598,10 @@ static void store_into(std::optional<W>& w, S& tmp, int mv, int via)
 }
 
 template <typename W>
-static void sender_store(std::optional<W>& w, bool anyk, int big, int cpy, int beh, int k, int mv, int via)
+static void sender_store(std::optional<W>& w, bool anyk, int big, int cpy, int beh, int k, int mv, int via, int aln)
 {
-    if (big && cpy) { Sender<true, true> t(k, beh); store_into(w, t, mv, via); }
+    if (aln) { Sender<false, true, true> t(k, beh); store_into(w, t, mv, via); }
+    else if (big && cpy) { Sender<true, true> t(k, beh); store_into(w, t, mv, via); }
     else if (!big && cpy) { Sender<false, true> t(k, beh); store_into(w, t, mv, via); }
     else if constexpr (std::is_same_v<W, US>)
     {
@@ -565,12 +638,28 @@ static void run_sender_case(int nu, int na, std::vector<OpRec> const& ops)
         std::string res = "-";
         int j = o.a[0];
         bool ju = j < nu;
-        if (o.name == "st")
+        bool thr = o.name.size() == 2 && o.name[1] == 'x';
+        std::string nm = o.name;
+        if (thr) nm = o.name == "sx" ? "st" : o.name == "cx" ? "cp" : o.name == "nx" ? "ns" : o.name == "mx" ? "mv" :
+                                      o.name == "ax" ? "ma" : "cr";
+        try
         {
-            if (ju) sender_store(U[j], false, o.a[1], o.a[2], o.a[3], o.a[4], o.a[5], o.a[6]);
-            else sender_store(A[j - nu], true, o.a[1], 1, o.a[3], o.a[4], o.a[5], o.a[6]);
+        std::optional<Arm> arm;
+        if (thr) arm.emplace();
+        if (nm == "st")
+        {
+            if (ju) sender_store(U[j], false, o.a[1], o.a[2], o.a[3], o.a[4], o.a[5], o.a[6], o.a[7]);
+            else sender_store(A[j - nu], true, o.a[1], 1, o.a[3], o.a[4], o.a[5], o.a[6], o.a[7]);
         }
-        else if (o.name == "mv")
+        else if (nm == "ns")
+        {
+            int i = o.a[1], via = o.a[2];
+            AS& src = *A[i - nu];    // l-value: the template constructor / operator= / reset stores a copy of it
+            if (via == 0) U[j].emplace(src);
+            else if (via == 1) *U[j] = src;
+            else U[j]->reset(src);
+        }
+        else if (nm == "mv")
         {
             int i = o.a[1], via = o.a[2];
             if (ju)
@@ -586,13 +675,13 @@ static void run_sender_case(int nu, int na, std::vector<OpRec> const& ops)
                 else A[j - nu]->reset(std::move(*A[i - nu]));
             }
         }
-        else if (o.name == "ma")
+        else if (nm == "ma")
         {
             int i = o.a[1], via = o.a[2];
             if (via == 0) U[j].emplace(std::move(*A[i - nu]));
             else *U[j] = std::move(*A[i - nu]);
         }
-        else if (o.name == "cp")
+        else if (nm == "cp")
         {
             int i = o.a[1], via = o.a[2];
             AS const& src = *A[i - nu];
@@ -600,19 +689,28 @@ static void run_sender_case(int nu, int na, std::vector<OpRec> const& ops)
             else if (via == 1) *A[j - nu] = src;
             else A[j - nu]->reset(src);
         }
-        else if (o.name == "rs")
+        else if (nm == "rs")
         {
             if (ju) U[j]->reset();
             else A[j - nu]->reset();
         }
-        else if (o.name == "cr")
+        else if (nm == "cr")
         {
             res = ju ? connect_rv(*U[j]) : connect_rv(*A[j - nu]);
         }
-        else if (o.name == "cl")
+        else if (nm == "cl")
         {
             res = connect_lv(*A[j - nu]);
         }
+        }
+        catch (...)
+        {
+            res = exc_token();
+        }
+        // a constructor of std::optional's payload that threw leaves the optional disengaged: the wrapper
+        // object does not exist; the slot continues as a default-constructed wrapper
+        if (ju && !U[j]) U[j].emplace();
+        if (!ju && !A[j - nu]) A[j - nu].emplace();
         emit_step(res, sender_empties(nu, na));
     }
     for (int i = 0; i < nu; ++i) U[i].reset();
@@ -629,7 +727,7 @@ static std::vector<OpRec> gen_sender_ops(Rng& g, int nu, int na)
     {
         OpRec o;
         int r = g.below(100);
-        if (r < 26)
+        if (r < 22)
         {
             int j = g.below(tot);
             bool ju = j < nu;
@@ -637,10 +735,19 @@ static std::vector<OpRec> gen_sender_ops(Rng& g, int nu, int na)
             int beh = g.chance(1, 8) ? 3 : g.below(3);
             int k = g.below(90);
             int mv = cpy ? g.below(2) : 1;
-            o.name = "st";
-            o.n = 7;
-            int v[7] = {j, big, cpy, beh, k, mv, g.below(3)};
+            int aln = g.chance(1, 6) ? 1 : 0;
+            if (aln) big = 0, cpy = 1, mv = g.below(2);
+            o.name = g.chance(1, 12) ? "sx" : "st";
+            o.n = 8;
+            int v[8] = {j, big, cpy, beh, k, mv, g.below(3), aln};
             std::memcpy(o.a, v, sizeof v);
+        }
+        else if (r < 30)
+        {
+            int via = g.below(3);
+            o.name = g.chance(1, 6) ? "nx" : "ns";
+            o.n = 3;
+            o.a[0] = g.below(nu), o.a[1] = nu + g.below(na), o.a[2] = via;
         }
         else if (r < 42)
         {
@@ -649,13 +756,13 @@ static std::vector<OpRec> gen_sender_ops(Rng& g, int nu, int na)
             int j = base + g.below(cnt), i = base + g.below(cnt);
             int via = g.below(3);
             if (j == i && via == 0) via = 1 + g.below(2);
-            o.name = "mv";
+            o.name = (j != i && g.chance(1, 6)) ? "mx" : "mv";
             o.n = 3;
             o.a[0] = j, o.a[1] = i, o.a[2] = via;
         }
         else if (r < 50)
         {
-            o.name = "ma";
+            o.name = g.chance(1, 6) ? "ax" : "ma";
             o.n = 3;
             o.a[0] = g.below(nu), o.a[1] = nu + g.below(na), o.a[2] = g.below(2);
         }
@@ -664,7 +771,7 @@ static std::vector<OpRec> gen_sender_ops(Rng& g, int nu, int na)
             int j = nu + g.below(na), i = nu + g.below(na);
             int via = g.below(3);
             if (j == i && via == 0) via = 1 + g.below(2);
-            o.name = "cp";
+            o.name = (j != i && g.chance(1, 6)) ? "cx" : "cp";
             o.n = 3;
             o.a[0] = j, o.a[1] = i, o.a[2] = via;
         }
@@ -676,7 +783,7 @@ static std::vector<OpRec> gen_sender_ops(Rng& g, int nu, int na)
         }
         else if (r < 86)
         {
-            o.name = "cr";
+            o.name = g.chance(1, 8) ? "rx" : "cr";
             o.n = 1;
             o.a[0] = g.below(tot);
         }
@@ -692,10 +799,6 @@ static std::vector<OpRec> gen_sender_ops(Rng& g, int nu, int na)
 }
 
 // ------------------------------------------------------------ function cases
-using FN = pika::util::detail::function<int(int)>;
-using UF = pika::util::detail::unique_function<int(int)>;
-static std::optional<FN> F[kMaxSlots];
-static std::optional<UF> Q[kMaxSlots];
 
 template <typename W, typename C>
 static void fn_store_into(std::optional<W>& w, C& tmp, int mv, int via)
@@ -718,15 +821,66 @@ static void fn_store_into(std::optional<W>& w, C& tmp, int mv, int via)
 }
 
 template <typename W>
-static void fn_store(std::optional<W>& w, int big, int cpy, int beh, int k, int mv, int via)
+static void fn_store(std::optional<W>& w, int big, int cpy, int beh, int k, int mv, int via, int aln)
 {
-    if (big && cpy) { Callable<true, true> t(k, beh); fn_store_into(w, t, mv, via); }
+    if (aln) { Callable<false, true, true> t(k, beh); fn_store_into(w, t, mv, via); }
+    else if (big && cpy) { Callable<true, true> t(k, beh); fn_store_into(w, t, mv, via); }
     else if (!big && cpy) { Callable<false, true> t(k, beh); fn_store_into(w, t, mv, via); }
     else if constexpr (std::is_same_v<W, UF>)
     {
         if (big) { Callable<true, false> t(k, beh); fn_store_into(w, t, 1, via); }
         else { Callable<false, false> t(k, beh); fn_store_into(w, t, 1, via); }
     }
+}
+
+// unique_function <- function holding a callable (nf): the function is built first, then stored by l- or r-value
+template <typename C>
+static void nested_store(std::optional<UF>& w, C& t, int ie, int mvi, int mv, int via)
+{
+    FN tf;
+    if (!ie)
+    {
+        if (mvi) tf = std::move(t);
+        else tf = t;
+    }
+    fn_store_into(w, tf, mv, via);
+}
+static void fn_store_nested(std::optional<UF>& w, int big, int beh, int k, int ie, int mvi, int mv, int via, int aln)
+{
+    if (aln) { Callable<false, true, true> t(k, beh); nested_store(w, t, ie, mvi, mv, via); }
+    else if (big) { Callable<true, true> t(k, beh); nested_store(w, t, ie, mvi, mv, via); }
+    else { Callable<false, true> t(k, beh); nested_store(w, t, ie, mvi, mv, via); }
+}
+
+// target<T>(): q = 0 asks for function<int(int)>, q = 1 + 4*big + 2*cpy + aln for a test callable
+template <typename W, typename T>
+static std::string target_of(W& w)
+{
+    T* p = w.template target<T>();
+    W const& cw = w;
+    if ((p != nullptr) != (cw.template target<T>() != nullptr)) ++g_boolmis;
+    if (!p) return "-";
+    if constexpr (std::is_same_v<T, FN>) return p->empty() ? "V0" : "V1";
+    else return "V" + std::to_string(p->b.c.k * 100 + p->b.c.calls);
+}
+template <typename W>
+static std::string fn_target(W& w, int q)
+{
+    if (q == 0)
+    {
+        if constexpr (std::is_same_v<W, UF>) return target_of<W, FN>(w);
+        else return "-";    // a function never stores a function (copy / move constructors are chosen)
+    }
+    int big = ((q - 1) >> 2) & 1, cpy = ((q - 1) >> 1) & 1, aln = (q - 1) & 1;
+    if (aln) return (big || !cpy) ? std::string("-") : target_of<W, Callable<false, true, true>>(w);    // no such test type
+    if (big && cpy) return target_of<W, Callable<true, true>>(w);
+    if (!big && cpy) return target_of<W, Callable<false, true>>(w);
+    if constexpr (std::is_same_v<W, UF>)
+    {
+        if (big) return target_of<W, Callable<true, false>>(w);
+        return target_of<W, Callable<false, false>>(w);
+    }
+    return "-";
 }
 
 template <typename W>
@@ -750,7 +904,29 @@ static void run_fn_case(std::optional<W>* S, int n, std::vector<OpRec> const& op
     {
         std::string res = "-";
         int j = o.a[0], i = o.a[1];
-        if (o.name == "st") fn_store(S[j], o.a[1], o.a[2], o.a[3], o.a[4], o.a[5], o.a[6]);
+        try
+        {
+        if (o.name == "st") fn_store(S[j], o.a[1], o.a[2], o.a[3], o.a[4], o.a[5], o.a[6], o.a[7]);
+        else if (o.name == "sx")
+        {
+            Arm arm;
+            fn_store(S[j], o.a[1], o.a[2], o.a[3], o.a[4], o.a[5], o.a[6], o.a[7]);
+        }
+        else if (o.name == "nf")
+        {
+            if constexpr (std::is_same_v<W, UF>)
+                fn_store_nested(S[j], o.a[1], o.a[3], o.a[4], o.a[5], o.a[6], o.a[7], o.a[8], o.a[9]);
+        }
+        else if (o.name == "tg") res = fn_target(*S[j], o.a[1]);
+        else if (o.name == "kx")
+        {
+            if constexpr (std::is_copy_constructible_v<W>)
+            {
+                W const& src = *S[i];
+                Arm arm;
+                S[j].emplace(src);
+            }
+        }
         else if (o.name == "cc")
         {
             if constexpr (std::is_copy_constructible_v<W>)
@@ -810,6 +986,12 @@ static void run_fn_case(std::optional<W>* S, int n, std::vector<OpRec> const& op
                 res = exc_token();
             }
         }
+        }
+        catch (...)
+        {
+            res = exc_token();
+        }
+        if (!S[j]) S[j].emplace();    // a wrapper whose constructor threw does not exist: default-constructed slot
         emit_step(res, fn_empties(S, n));
     }
     for (int i = 0; i < n; ++i) S[i].reset();
@@ -825,15 +1007,35 @@ static std::vector<OpRec> gen_fn_ops(Rng& g, int n, bool copyable)
         OpRec o;
         int r = g.below(100);
         int j = g.below(n), i = g.below(n);
-        if (r < 26)
+        if (r < 24)
         {
             int big = g.below(2), cpy = copyable ? 1 : g.below(2);
             int beh = g.below(2), k = g.below(90);
             int mv = cpy ? g.below(2) : 1;
+            int aln = g.chance(1, 6) ? 1 : 0;
+            if (aln) big = 0, cpy = 1, mv = g.below(2);
+            int via = g.below(3);
             o.name = "st";
-            o.n = 7;
-            int v[7] = {j, big, cpy, beh, k, mv, g.below(3)};
+            // the constructor of a wrapper from a SMALL callable whose copy / move constructor throws
+            if (!big && g.chance(1, 12)) o.name = "sx", via = 0;
+            o.n = 8;
+            int v[8] = {j, big, cpy, beh, k, mv, via, aln};
             std::memcpy(o.a, v, sizeof v);
+        }
+        else if (r < 32 && !copyable)
+        {
+            int aln = g.chance(1, 6) ? 1 : 0;
+            o.name = "nf";
+            o.n = 10;
+            int v[10] = {j, aln ? 0 : g.below(2), 1, g.below(2), g.below(90), g.chance(1, 8) ? 1 : 0, g.below(2), g.below(2),
+                g.below(3), aln};
+            std::memcpy(o.a, v, sizeof v);
+        }
+        else if (r < 36)
+        {
+            o.name = "tg";
+            o.n = 2;
+            o.a[0] = j, o.a[1] = g.below(9);
         }
         else if (r < 56)
         {
@@ -882,7 +1084,7 @@ static void run_case(std::string const& kind, std::string const& id, int p1, int
     g_steps.reserve(1 << 16);
     g_boolmis = g_multi = 0;
     LG.reset();
-    g_nlive = g_nquar = g_dfree = 0;
+    g_nlive = g_nquar = g_dfree = g_badfree = 0;
     g_track = true;
     if (kind == "SND") run_sender_case(p1, p2, ops);
     else if (p1) run_fn_case(F, p2, ops);
@@ -900,9 +1102,76 @@ static void run_case(std::string const& kind, std::string const& id, int p1, int
         if (LG.st[i] != 2) ++notdead;
     std::printf("OUT %s %s %s\n", kind.c_str(), id.c_str(), g_steps.c_str());
     std::printf("MON %s %s constructed=%u alive_at_end=%d double_destroy=%d garbage=%d dead_use=%d "
-                "blocks_leaked=%d double_free=%d bool_mismatch=%d completion_count_bad=%d\n",
+                "blocks_leaked=%d double_free=%d bool_mismatch=%d completion_count_bad=%d misaligned=%d bad_free=%d\n",
         kind.c_str(), id.c_str(), LG.next, notdead, LG.dbl, LG.garbage, LG.dead_use,
-        leak, g_dfree, g_boolmis, g_multi);
+        leak, g_dfree, g_boolmis, g_multi, LG.misaligned, g_badfree);
+    std::fflush(stdout);
+}
+
+// ------------------------------------------------------------ TYPES case
+template <typename Base, std::size_t N>
+struct Probe : pika::detail::movable_sbo_storage<Base, N>
+{
+    template <typename I>
+    static constexpr bool can()
+    {
+        return pika::detail::movable_sbo_storage<Base, N>::template can_use_embedded_storage<I>();
+    }
+};
+static std::string g_titems, g_tdec;
+template <typename S, bool Big, bool Aln, bool Cpy>
+static void types_sender()
+{
+    char b[96];
+    using UI = ex::detail::unique_any_sender_impl<S, int>;
+    std::snprintf(b, sizeof b, "U,%zu,%zu,%d,%d;", sizeof(UI), alignof(UI), (int) Big, (int) Aln);
+    g_titems += b;
+    g_tdec += Probe<ex::detail::unique_any_sender_base<int>, 4 * sizeof(void*)>::template can<UI>() ? '1' : '0';
+    if constexpr (Cpy)
+    {
+        using AI = ex::detail::any_sender_impl<S, int>;
+        std::snprintf(b, sizeof b, "A,%zu,%zu,%d,%d;", sizeof(AI), alignof(AI), (int) Big, (int) Aln);
+        g_titems += b;
+        g_tdec += Probe<ex::detail::any_sender_base<int>, 4 * sizeof(void*)>::template can<AI>() ? '1' : '0';
+    }
+    using OI = ex::detail::any_operation_state_holder_impl<S, int>;
+    std::snprintf(b, sizeof b, "O,%zu,%zu,%d,%d;", sizeof(OI), alignof(OI), (int) Big, 0);
+    g_titems += b;
+    g_tdec += Probe<ex::detail::any_operation_state_holder_base, 8 * sizeof(void*)>::template can<OI>() ? '1' : '0';
+}
+template <typename C, bool Big>
+static void types_callable()
+{
+    char b[96];
+    std::snprintf(b, sizeof b, "F,%zu,%zu,%d,0;", sizeof(C), alignof(C), (int) Big);
+    g_titems += b;
+    alignas(16) unsigned char buf[pika::util::detail::function_storage_size];
+    void* p = pika::util::detail::vtable::allocate<C>(buf, pika::util::detail::function_storage_size);
+    g_tdec += p == (void*) buf ? '1' : '0';    // 1 = inline
+    pika::util::detail::vtable::_deallocate<C>(p, pika::util::detail::function_storage_size, false);
+}
+static void run_types_case()
+{
+    g_titems.clear();
+    g_tdec.clear();
+    types_sender<Sender<false, true>, false, false, true>();
+    types_sender<Sender<true, true>, true, false, true>();
+    types_sender<Sender<false, false>, false, false, false>();
+    types_sender<Sender<true, false>, true, false, false>();
+    types_sender<Sender<false, true, true>, false, true, true>();
+    types_callable<Callable<false, true>, false>();
+    types_callable<Callable<true, true>, true>();
+    types_callable<Callable<false, false>, false>();
+    types_callable<Callable<true, false>, true>();
+    types_callable<Callable<false, true, true>, false>();
+    types_callable<FN, true>();
+#if defined(PIKA_DETAIL_ENABLE_ANY_SENDER_SBO)
+    int sbo = 1;
+#else
+    int sbo = 0;
+#endif
+    std::printf("IN TYPES t sbo=%d ptr=%zu items=%s\n", sbo, sizeof(void*), g_titems.c_str());
+    std::printf("OUT TYPES t %s\n", g_tdec.c_str());
     std::fflush(stdout);
 }
 
@@ -943,6 +1212,8 @@ int main(int argc, char** argv)
     alarm(600);
     // libpika logs every created exception to stderr; keep it unless asked otherwise
     if (!std::getenv("C18_KEEP_STDERR")) (void) std::freopen("/dev/null", "w", stderr);
+    g_slots_lo = (char*) &SL;
+    g_slots_hi = (char*) &SL + sizeof SL;
     warm_up();
     if (argc > 2 && std::string(argv[1]) == "replay")
     {
@@ -951,47 +1222,97 @@ int main(int argc, char** argv)
         std::string opstr = p == std::string::npos ? "" : line.substr(p + 5);
         auto ops = parse_ops(opstr);
         if (line.rfind("IN SND", 0) == 0) run_case("SND", "r", field(line, "nu"), field(line, "na"), ops);
-        else run_case(line.rfind("IN FUNX", 0) == 0 ? "FUNX" : "FUN", "r", field(line, "copyable"), field(line, "n"), ops);
+        else if (line.rfind("IN TYPES", 0) == 0) run_types_case();
+        else
+        {
+            std::string kind = line.substr(3, line.find(' ', 3) - 3);
+            run_case(kind, "r", field(line, "copyable"), field(line, "n"), ops);
+        }
         return 0;
     }
     std::uint64_t seed = argc > 1 ? std::strtoull(argv[1], nullptr, 10) : 1;
     int ncases = argc > 2 ? std::atoi(argv[2]) : 100;
     int first = argc > 3 ? std::atoi(argv[3]) : 0;
     std::string kinds = argc > 4 ? argv[4] : "sf";
+    if (kinds == "t")
+    {
+        run_types_case();
+        return 0;
+    }
     if (kinds == "x")
     {
-        // FUNX: copy assignment onto a non-empty function of the same stored type while the
-        // wrapped type's copy constructor throws; the corrupted wrapper is only destroyed after
+        // witness shapes for throwing constructors in the function wrappers (each kind = one function of the source):
+        //  FUNX  op_assign(const&): (0) onto a function of the same stored type -> the old object is destroyed twice
+        //                           (1) onto an EMPTY function (small T) -> stale vptr: a later copy assignment is a no-op
+        //  FUNA  assign(F&&):       (2) same stored type -> destroyed twice   (3) onto an empty function (small T) -> stale
+        //  FUNK  constructors of small T (function(F&&), copy constructor): consistent, nothing leaks
+        //  FUNL  constructors of big T: the heap buffer from vtable::allocate is leaked
         for (int cs = first; cs < ncases; ++cs)
         {
             Rng g(seed * 7000003ull + (std::uint64_t) cs);
+            int shape = cs % 6;
             int n = 2 + g.below(2), big = g.below(2);
+            if (shape == 1 || shape == 3 || shape == 4) big = 0;
+            if (shape == 5) big = 1;
             int j = g.below(n), i = (j + 1 + g.below(n - 1)) % n;
             std::vector<OpRec> ops;
-            auto st = [&](int slot) {
+            auto st = [&](char const* name, int slot, int via) {
                 OpRec o;
-                o.name = "st";
-                o.n = 7;
-                int v[7] = {slot, big, 1, g.below(2), g.below(90), g.below(2), g.below(3)};
+                o.name = name;
+                o.n = 8;
+                int v[8] = {slot, big, 1, g.below(2), g.below(90), g.below(2), via, 0};
                 std::memcpy(o.a, v, sizeof v);
                 ops.push_back(o);
             };
-            st(j);
-            st(i);
-            for (int t = g.below(3); t > 0; --t)
-            {
+            auto two = [&](char const* name, int a, int b) {
                 OpRec o;
-                o.name = "iv";
+                o.name = name;
                 o.n = 2;
-                o.a[0] = g.chance(1, 2) ? j : i, o.a[1] = g.below(10);
+                o.a[0] = a, o.a[1] = b;
                 ops.push_back(o);
+            };
+            char const* kind = "FUNX";
+            if (shape == 0)
+            {
+                st("st", j, g.below(3));
+                st("st", i, g.below(3));
+                for (int t = g.below(3); t > 0; --t) two("iv", g.chance(1, 2) ? j : i, g.below(10));
+                two("cx", j, i);
             }
-            OpRec o;
-            o.name = "cx";
-            o.n = 2;
-            o.a[0] = j, o.a[1] = i;
-            ops.push_back(o);
-            run_case("FUNX", std::to_string(seed) + ".x" + std::to_string(cs), 1, n, ops);
+            else if (shape == 1)
+            {
+                st("st", i, g.below(3));
+                two("cx", j, i);
+                two("tg", j, 1 + 2);
+                two("ca", j, i);
+                two("iv", i, g.below(10));
+            }
+            else if (shape == 2)
+            {
+                kind = "FUNA";
+                st("st", j, g.below(3));
+                for (int t = g.below(3); t > 0; --t) two("iv", j, g.below(10));
+                st("sx", j, 1 + g.below(2));
+            }
+            else if (shape == 3)
+            {
+                kind = "FUNA";
+                st("sx", j, 1 + g.below(2));
+                st("st", i, g.below(3));
+                two("ca", j, i);
+                two("iv", i, g.below(10));
+            }
+            else
+            {
+                kind = shape == 4 ? "FUNK" : "FUNL";
+                st("st", i, g.below(3));
+                two("kx", j, i);
+                two("iv", j, g.below(10));
+                st("sx", j, 0);
+                two("iv", j, g.below(10));
+                two("iv", i, g.below(10));
+            }
+            run_case(kind, std::to_string(seed) + ".x" + std::to_string(cs), 1, n, ops);
         }
         return 0;
     }
